@@ -1,5 +1,5 @@
 (** * C15 — grids, rotations and comparisons on the reals ([RO]). *)
-From Coq Require Import List Arith ZArith Bool Lia Reals Lra Psatz QArith.
+From Coq Require Import List Arith ZArith Bool Lia Reals Lra Psatz QArith Floats.
 From Compute Require Import Base.Ops Base.ListMat Model.Shape Spec.Shape Proofs.C15Lists Proofs.C15 Proofs.C15Step.
 Import ListNotations.
 Local Close Scope Q_scope.
@@ -150,8 +150,12 @@ Definition rel_diff_R (x y : R) : R :=
 
 Lemma rel_diff_RO : forall x y, rel_diff RO x y = rel_diff_R x y.
 Proof.
-  intros. unfold rel_diff, rel_diff_R, fmin, is_nan. cbn [eqb abs sub div ltb RO zero]. unfold Reqb.
+  intros. unfold rel_diff, rel_diff_R, fmin, is_nan. cbn [eqb abs sub div ltb RO zero one]. unfold Reqb.
   destruct (Req_EM_T x 0); auto. destruct (Req_EM_T y 0); auto.
+  (* the guard [diff == 1 / 0]: on the reals 1 / 0 = 0 ([Rinv_0]), so it fires only for x = y, where the quotient is 0 too *)
+  assert (E10 : 1 / 0 = 0) by (unfold Rdiv; rewrite Rinv_0; ring). rewrite E10.
+  destruct (Req_EM_T (Rabs (x - y)) 0) as [E0|E0].
+  { rewrite E0. unfold Rdiv. rewrite Rmult_0_l. reflexivity. }
   destruct (Req_EM_T (Rabs x) (Rabs x)); [|congruence]. destruct (Req_EM_T (Rabs y) (Rabs y)); [|congruence].
   cbn [negb]. f_equal. unfold Rltb, Rmin. destruct (Rlt_dec (Rabs y) (Rabs x)), (Rle_dec (Rabs x) (Rabs y)); lra.
 Qed.
@@ -201,6 +205,15 @@ Proof.
   - destruct (close_to_v RO [1] [-1] (1 / 2)) eqn:E; auto.
     apply close_to_sign_safe in E; [|lra]. destruct E as [_ E]. exfalso. apply (E 0%nat); [simpl; lia | simpl; lra].
 Qed.
+
+(** on binary64 (the carrier the correspondence runs on): [inf] and [-inf] are not close, whatever the tolerance -- before the
+    repair of [rel_diff] the quotient [inf / inf = NaN] passed every tolerance test (here: 1/2 and the largest finite tolerance); equal infinities stay close *)
+Example close_to_opposite_infinities :
+  close_to_v FO0 [PrimFloat.infinity] [PrimFloat.neg_infinity] 0x1p-1%float = false /\
+  close_to_v FO0 [PrimFloat.infinity] [PrimFloat.neg_infinity] 0x1.fffffffffffffp+1023%float = false /\
+  close_to_v FO0 [PrimFloat.infinity] [PrimFloat.infinity] 0x1p-1%float = true /\
+  close_to_v FO0 [0x1.fffffffffffffp+1023%float] [(-0x1.fffffffffffffp+1023)%float] 0x1p-1%float = false.
+Proof. repeat split; vm_compute; reflexivity. Qed.
 
 (** Matrix comparisons are the vector ones guarded by equal shapes *)
 Theorem matrix_compare_def : forall (a b : mat R) tol,
